@@ -42,7 +42,10 @@ _AX_INFO = {}
 
 def _ax_info(a):
     k = a.get_id()
-    if k not in _AX_INFO:
+    hit = _AX_INFO.get(k)
+    if hit is not None and hit[0].eq(a):
+        return hit[1], hit[2]
+    if True:
         if z3.is_quantifier(a):
             pats = []
             for i in range(a.num_patterns()):
@@ -50,10 +53,10 @@ def _ax_info(a):
                 for ch in a.pattern(i).children():      # a (multi-)pattern is an application of `pattern` to its terms
                     _syms(ch, acc)
                 pats.append(frozenset(acc))
-            _AX_INFO[k] = (pats, frozenset(_syms(a.body(), set())))
+            _AX_INFO[k] = (a, pats, frozenset(_syms(a.body(), set())))       # the AST is kept alive: ids are not reused
         else:
-            _AX_INFO[k] = (None, frozenset(_syms(a, set())))
-    return _AX_INFO[k]
+            _AX_INFO[k] = (a, None, frozenset(_syms(a, set())))
+    return _AX_INFO[k][1], _AX_INFO[k][2]
 
 
 def relevant(axioms, pc, goal):
